@@ -108,7 +108,8 @@ class Sim:
             return "n"
         nd = self.n[v]
         k = nd["kind"]
-        head = "%s%s#%d" % (k, "%d.%d" % (v, nd["cb"]) if nd["cb"] is not None else "?", self.owns(v) + self.indeg(v))
+        head = "%s%s%s#%d" % (k, "%d.%d" % (v, nd["cb"]) if nd["cb"] is not None else "?", "u" if nd["ud"] else "-",
+                              self.owns(v) + self.indeg(v))
         if k == "a":
             return head + "[" + ",".join(self.dump(c) for _, c in nd["kids"]) + "]"
         if k == "o":
@@ -190,7 +191,7 @@ class Sim:
             kind = {"newobj": "o", "newarr": "a"}.get(c, "s")
             if c not in ("newobj", "newarr", "newbool", "newdbl", "newint", "newstr"):
                 raise Bad("ctor")
-            self.n[i] = dict(kind=kind, kids=[], cb=0)
+            self.n[i] = dict(kind=kind, kids=[], cb=0, ud=True)
             self.L[i] = 1
             self.nxt = i + 1
             r["ret"] = i
@@ -265,11 +266,18 @@ class Sim:
                 r["ret"] = -1
             else:
                 del kids[idx:idx + cnt]
-        elif a[0] in ("setud", "setser", "clrud"):
-            i = self.handle(a[1])
+        elif a[0] == "reg":
+            # reg h<i> <registration number> <userdata non-NULL> <delete callback> <0 set_userdata | 1 | 2 set_serializer>
+            # the registration that ends here has its callback invoked now, exactly once,
+            # whatever its userdata was
+            i, t = self.handle(a[1]), int(a[2])
+            if t < self.nxt:
+                raise Bad("registration number reuse")
             if self.n[i]["cb"] is not None:
                 r["user"].append((i, self.n[i]["cb"]))
-            self.n[i]["cb"] = None if a[0] == "clrud" else int(a[2])
+            self.n[i]["cb"] = t if a[4] == "1" else None
+            self.n[i]["ud"] = a[3] == "1"
+            self.nxt = t + 1
         elif a[0] == "ptrset":
             root, v = self.handle(a[1]), self.handle(a[3], True)
             r["ret"] = self._ptrset(root, unhex(a[2]), v, r)
@@ -416,13 +424,13 @@ class Sim:
 
     def _any_cb(self, i):
         nd = self.n[i]
-        return nd["cb"] is not None or any(c is not None and self._any_cb(c) for _, c in nd["kids"])
+        return nd["cb"] is not None or nd["ud"] or any(c is not None and self._any_cb(c) for _, c in nd["kids"])
 
     def _copy(self, src, custom, anon=False):
         me = self.nxt
         self.nxt += 1
         nd = self.n[src]
-        self.n[me] = dict(kind=nd["kind"], kids=[], cb=0 if custom else None, anon=anon)
+        self.n[me] = dict(kind=nd["kind"], kids=[], cb=0 if custom else None, ud=custom, anon=anon)
         self.L[me] = 0
         for key, c in nd["kids"]:
             self.n[me]["kids"].append([key, None if c is None else self._copy(c, custom, anon)])
@@ -604,6 +612,23 @@ class Gen:
         return self.do("addx h%d %s %s %d" % (p, key, self.hs(v), f),
                        kind or ("add_ex-constant-key" if f & 2 else "add_ex-key-is-new" if f & 1 else "add_ex"))
 
+    def reg(self, i, u, d, ser, kind=None):
+        return self.do("reg h%d %d %d %d %d" % (i, self.sim.nxt, u, d, ser), kind)
+
+    def reg_chain(self, i):
+        """a node's registration replaced 1..4 times: userdata NULL or not x delete callback or not x
+        set_userdata / set_serializer(NULL fn) / set_serializer(custom fn), incl. the (NULL, NULL, NULL) reset"""
+        rng = self.rng
+        for _ in range(rng.choice([1, 1, 2, 2, 3, 4])):
+            if not self.sim.live(i):
+                return
+            u, d, ser = rng.randint(0, 1), rng.randint(0, 1) if rng.random() < 0.8 else 1, rng.choice([0, 0, 1, 2])
+            if rng.random() < 0.15:
+                u, d, ser = 0, 0, 1
+            kind = ("reg-null-userdata-callback" if (d and not u) else "reg-reset" if not (u or d) else
+                    "reg-userdata-no-callback" if not d else "set_serializer" if ser else "set_userdata")
+            self.reg(i, u, d, ser, kind)
+
     def grow(self):
         """an object that mixes lent (constant) and copied member names and grows through one or
         more table resizes, then loses / replaces members and is looked at"""
@@ -736,13 +761,7 @@ class Gen:
         elif r < 0.78:
             i = self.pick(lambda i: True)
             if i is not None:
-                w = rng.random()
-                if w < 0.5:
-                    self.do("setud h%d %d" % (i, rng.randint(1, 9)), "set_userdata")
-                elif w < 0.8:
-                    self.do("setser h%d %d" % (i, rng.randint(1, 9)), "set_serializer")
-                else:
-                    self.do("clrud h%d" % i, "clear-userdata")
+                self.reg_chain(i)
         elif r < 0.82:
             src = self.pick(lambda i: True)
             if src is not None and sim.unfold_size(src, 40) < 40:
@@ -812,10 +831,10 @@ class Gen:
                 v = self.pick(lambda i: not sim._any_cb(i))
                 if v is None or rng.random() < 0.5:
                     v = self.new()
-                    self.do("clrud h%d" % v)
+                    self.reg(v, 0, 0, 0)
                     if rng.random() < 0.4 and sim.n[v]["kind"] in "oa":
                         c = self.new(rng.choice(["newint", "newarr"]))
-                        self.do("clrud h%d" % c)
+                        self.reg(c, 0, 0, 0)
                         self.put_into(v, c)
             existing = w >= 0.85
             path = b"/" + b"/".join(toks + [self.last_token(cur, existing)])
